@@ -48,7 +48,9 @@ MathEnvNames == {<<"a","l","i","g","n">>, <<"a","l","i","g","n","*">>, <<"a","l"
 Special == {<<"n","e","w","c","o","m","m","a","n","d">>, <<"r","e","n","e","w","c","o","m","m","a","n","d">>,
             <<"p","r","o","v","i","d","e","c","o","m","m","a","n","d">>,
             <<"n","e","w","c","o","m","m","a","n","d","*">>, <<"r","e","n","e","w","c","o","m","m","a","n","d","*">>,
-            <<"p","r","o","v","i","d","e","c","o","m","m","a","n","d","*">>}
+            <<"p","r","o","v","i","d","e","c","o","m","m","a","n","d","*">>,
+            <<"n","e","w","e","n","v","i","r","o","n","m","e","n","t">>, <<"r","e","n","e","w","e","n","v","i","r","o","n","m","e","n","t">>,
+            <<"n","e","w","e","n","v","i","r","o","n","m","e","n","t","*">>, <<"r","e","n","e","w","e","n","v","i","r","o","n","m","e","n","t","*">>}
 SizePrefix == {<<"l","e","f","t">>, <<"r","i","g","h","t">>, <<"b","i","g">>, <<"B","i","g">>, <<"b","i","g","g">>, <<"B","i","g","g">>}
 Delims == {<<"(">>, <<")">>, <<"<">>, <<">">>, <<"[">>, <<"]">>, <<"{">>, <<"}">>, <<"\\","{">>, <<"\\","}">>, <<".">>, <<"|">>,
            <<"\\","l","a","n","g","l","e">>, <<"\\","r","a","n","g","l","e">>, <<"\\","l","f","l","o","o","r">>,
